@@ -312,7 +312,10 @@ class Ctx:
         ev = {"property_id": self.prop, "tier": self.tier, "seed": self.seed, "level": self.level,
               "coverage": cov, "assumptions": self.assumptions, "wall_s": round(time.time() - self.t0, 2),
               "violations": len(self.violations)}
-        with open(os.path.join(ROOT, "evidence", self.prop + ".json"), "w") as f:
+        # evidence/ is only for runs against /repo itself; runs against a scratch tree (VERIF_REPO) go elsewhere
+        evdir = os.path.join(ROOT, "evidence") if os.path.realpath(REPO) == "/repo" else os.path.join(BUILD, "evidence-scratch")
+        os.makedirs(evdir, exist_ok=True)
+        with open(os.path.join(evdir, self.prop + ".json"), "w") as f:
             json.dump(ev, f, indent=1)
         for v in self.violations[:5]:
             print("VIOLATION property=%s replay=%s%s" % (self.prop, v["path"], "" if v["found"] else " no-failing-input-found"), flush=True)
